@@ -15,6 +15,11 @@ import inspect
 import textwrap
 import types
 
+try:
+  from crosshair.tracers import NoTracing as _NoTracing, is_tracing as _is_tracing
+except Exception:      # pragma: no cover
+  _NoTracing, _is_tracing = None, None
+
 # ------------------------------------------------------------------ runtime ---
 
 
@@ -65,9 +70,18 @@ def co(f, *a, **k):
       yield ('blocked', r)
       continue
     break
-  if type(r) is types.GeneratorType and getattr(r, 'gi_code', None) is not None and r.gi_code.co_name.startswith('seqz__'):
+  if type(r) is types.GeneratorType and (r.gi_code.co_name.startswith('seqz__') or r.gi_code in SEQZ_CODES):
     return (yield from r)
   return r
+
+
+SEQZ_CODES = set()
+
+
+def mark(fn):
+  """Declares a hand-written generator function of a harness as a coroutine to be delegated to."""
+  SEQZ_CODES.add(fn.__code__)
+  return fn
 
 
 # ---------------------------------------------------------------- transform ---
@@ -179,6 +193,9 @@ finally:
     # super() needs the class cell: keep such calls as they are (atomic)
     if isinstance(node.func, ast.Name) and node.func.id in ('super', 'isinstance', 'len', 'type', 'getattr', 'hasattr', 'min', 'max', 'str', 'repr'):
       return node
+    # frame-sensitive calls must stay in the caller's frame (sys.exc_info() inside an except block)
+    if isinstance(node.func, ast.Attribute) and isinstance(node.func.value, ast.Name) and node.func.value.id in ('sys', 'traceback'):
+      return node
     new = ast.Call(ast.Name('__co', ast.Load()), [node.func] + node.args, node.keywords)
     return ast.copy_location(ast.YieldFrom(new), node)
 
@@ -225,6 +242,18 @@ def encode_methods(cls, names, extra_globals=None):
   return originals
 
 
+def encode_subclass(cls, names, extra_globals=None, name=None):
+  """Returns (subclass of `cls` whose listed methods are sequentialised, originals).  The class
+  itself is left untouched, so E1 conditions in the same process keep using the real methods."""
+  originals, ns = [], {}
+  for n in names:
+    f = inspect.getattr_static(cls, n)
+    originals.append(f)
+    ns[n] = sequentialize(f, extra_globals)
+  sub = type(name or ('Seq' + cls.__name__), (cls,), ns)
+  return sub, originals
+
+
 # ---------------------------------------------------------------- scheduler ---
 
 class Co:
@@ -247,8 +276,13 @@ class Sched:
   When the current coroutine blocks or ends, the lowest-index runnable coroutine is chosen
   unless `pick` (list of ints) supplies choices."""
 
-  def __init__(self, preempt=(), pick=(), max_steps=400):
+  def __init__(self, preempt=(), pick=(), max_steps=400, time_skip=False, untraced=False):
     self.cos = []
+    # untraced: coroutine steps run outside CrossHair's tracer (natively).  Only for harnesses whose
+    # coroutines see concrete data only: the symbolic variables are then exactly the schedule ints
+    # (preempt steps/targets, picks), which are compared - under tracing - in run().
+    self.untraced = untraced
+    self.time_skip = time_skip  # seconds: a preemption whose target is in a timed wait ending within this span lets the wait expire first
     self.now = 0.0
     self.preempt = list(preempt)
     self.pick = list(pick)
@@ -257,6 +291,7 @@ class Sched:
     self.trace = []
     self.cur = None
     self.deadlocked = False
+    self.hooks = {}           # global step -> callable run by the scheduler before that step
     SCHED[0] = self
 
   def spawn(self, name, gen):
@@ -279,6 +314,12 @@ class Sched:
       c.idle = False
 
   def _step(self, c):
+    if self.untraced and _NoTracing is not None and _is_tracing():
+      with _NoTracing():
+        return self._step_impl(c)
+    return self._step_impl(c)
+
+  def _step_impl(self, c):
     self.cur = c
     self.step += 1
     c.steps += 1
@@ -310,6 +351,9 @@ class Sched:
       c.idle = True               # stays idle until some other coroutine makes a step
       if not was:
         self.trace.append((c.name, 'blocked'))
+        for o in self.cos:        # a call that newly blocks may have had an effect (Condition.wait releases its lock)
+          if o is not c:
+            o.idle = False
     else:
       c.blocked_on = None
       self.trace.append((c.name, ev[1]))
@@ -335,6 +379,15 @@ class Sched:
         self.now = max(self.now, min(deadlines))
         self._wake_all()
         continue
+      hk = self.hooks.pop(self.step, None)
+      if hk is not None:
+        if self.untraced and _NoTracing is not None and _is_tracing():
+          with _NoTracing():
+            hk()
+        else:
+          hk()
+        self._wake_all()
+        runnable = self._runnable()
       # preemption requested before this step?
       target = None
       for (st, tg) in self.preempt:
@@ -345,6 +398,14 @@ class Sched:
         for i, c in enumerate(self.cos):
           if i == target and c in runnable:
             nxt = c
+          elif i == target and self.time_skip and c.alive and c.blocked_on is not None and c.blocked_on.deadline is not None \
+              and c.blocked_on.deadline - self.now <= self.time_skip:
+            nxt = c
+        if nxt is not None and self.time_skip and nxt.blocked_on is not None and nxt.blocked_on.deadline is not None \
+            and nxt.blocked_on.deadline - self.now <= self.time_skip:
+          # the other threads are slow: the target's timed wait expires although they could still run
+          self.now = max(self.now, nxt.blocked_on.deadline)
+          nxt.idle = False
       if nxt is None:
         if cur is not None and cur in runnable:
           nxt = cur
